@@ -176,110 +176,6 @@ fn c18x_control_one_byte_per_character() {
 }
 
 
-// ---------------------------------------------------------------------------------------------------------------------
-// read(): one logical line.  "whatever follows the current command on standard input remains available": the read
-// built-in consumes exactly up to and including the first delimiter that is not escaped by a backslash (a
-// backslash-newline pair continues the line unless -r is given) and nothing beyond it.
-// ---------------------------------------------------------------------------------------------------------------------
-const ALPHABET: [u8; 3] = [b'a', b'\\', b'\n'];
-
-/// kind: 0 plain, 1 quoting backslash, 2 quoted character
-fn reference_line(data: &[u8; 4], len: usize, is_raw: bool) -> ([(u8, u8); 4], usize, bool, usize) {
-    let mut out = [(0u8, 0u8); 4];
-    let mut n = 0;
-    let mut i = 0;
-    loop {
-        if i == len {
-            return (out, n, false, len);
-        }
-        let c = data[i];
-        i += 1;
-        if c == b'\n' {
-            return (out, n, true, i);
-        }
-        if c == b'\\' && !is_raw {
-            if i == len {
-                out[n] = (1, b'\\');
-                n += 1;
-                return (out, n, false, len);
-            }
-            let d = data[i];
-            i += 1;
-            if d == b'\n' {
-                continue;
-            }
-            out[n] = (1, b'\\');
-            n += 1;
-            out[n] = (2, d);
-            n += 1;
-        } else {
-            out[n] = (0, c);
-            n += 1;
-        }
-    }
-}
-
-fn run_line(len: usize) {
-    let mut data = [0u8; 4];
-    let mut i = 0;
-    while i < len {
-        let k: usize = kani::any();
-        kani::assume(k < 3);
-        data[i] = ALPHABET[k];
-        i += 1;
-    }
-    let is_raw: bool = kani::any();
-    let system = Scripted { data, len, pos: Cell::new(0) };
-    let mut env = Env::with_system(system);
-    let r = {
-        let fut = pin!(read(&mut env, b'\n', is_raw));
-        let mut cx = Context::from_waker(Waker::noop());
-        match fut.poll(&mut cx) {
-            Poll::Ready(r) => r,
-            Poll::Pending => panic!("the scripted system never blocks"),
-        }
-    };
-    let consumed = env.system.pos.get();
-    let (want, n, found, want_consumed) = reference_line(&data, len, is_raw);
-    match r {
-        Ok((chars, newline_found)) => {
-            assert!(consumed == want_consumed, "read consumes exactly its line: up to and including the first unescaped newline");
-            assert!(newline_found == found, "whether the line was ended by the delimiter");
-            assert!(chars.len() == n, "number of characters of the line");
-            let mut j = 0;
-            while j < n {
-                let c = chars[j];
-                assert!(c.value == want[j].1 as char, "the characters of the line, in order");
-                assert!(c.is_quoting == (want[j].0 == 1) && c.is_quoted == (want[j].0 == 2), "a backslash quotes the next character unless -r is given");
-                j += 1;
-            }
-            std::mem::forget(chars);
-        }
-        Err(_) => panic!("ASCII input cannot fail"),
-    }
-    std::mem::forget(env);
-}
-
-#[kani::proof]
-#[kani::stub(std::hash::RandomState::new, fixed_random_state)]
-#[kani::unwind(8)]
-fn c18q_read_line_len0_len1() {
-    run_line(0);
-    run_line(1);
-}
-#[kani::proof]
-#[kani::stub(std::hash::RandomState::new, fixed_random_state)]
-#[kani::unwind(8)]
-fn c18q_read_line_len2() {
-    run_line(2);
-}
-#[kani::proof]
-#[kani::stub(std::hash::RandomState::new, fixed_random_state)]
-#[kani::unwind(8)]
-fn c18t_read_line_len3() {
-    run_line(3);
-}
-
 // native replay of a Kani counterexample (bin/vcheck replay): the generated test is included here
 #[cfg(verif_playback)]
 include!("/verif/work/k/playback/readchar_harness.rs");
